@@ -128,6 +128,15 @@ Definition sizes_in_range : bool :=
 (* the MAC key length is the hash's natural size, never less than the transmitted tag size *)
 Definition mac_digest_ge_size : bool := forallb (fun m => m_size m <=? m_digest m) gen_macs.
 
+(* ---- which hash _compute_key uses --------------------------------------------------------------
+   hash_algo = getattr(self.kex_engine, "hash_algo", None); if hash_algo is None: hash_algo = sha1
+   Only the digest length matters to the model; `declared` is the kex class's entry in gen_kex_hashes *)
+Definition kex_hash_len (declared : option Z) : Z :=
+  match declared with Some h => h | None => gen_fallback_hash_len end.
+
+Definition kex_hashes_positive : bool :=
+  forallb (fun r => (1 <=? kex_hash_len (snd r)) && (kex_hash_len (snd r) <=? 64)) gen_kex_hashes.
+
 (* ---- toy hash for the correspondence run (the same function is defined in harness/c04.py) ---
    32-bit polynomial rolling state, expanded to hl output bytes *)
 Definition toy_mask : Z := 4294967295.
@@ -161,4 +170,19 @@ Definition run_requested (c : bool * bool * Z * Z) : list Z :=
       ++ [if sel_eqb (gen_cipher_sel d) SelLocal then 0 else 1;
           if sel_eqb (gen_mac_sel d) SelLocal then 0 else 1]
   | _, _ => [(-1)]
+  end.
+
+(* digest length used for the i-th kex of Transport._kex_info *)
+Definition run_kex_hl (i : Z) : list Z :=
+  match nth_error gen_kex_hashes (Z.to_nat (Z.min (Z.max i 0) 1000)) with
+  | Some r => [kex_hash_len (snd r)]
+  | None => [(-1)]
+  end.
+
+(* one case type for the two table-level runs, so a single coqc evaluates both *)
+Inductive tcase := TReq (srv outb : bool) (ci mi : Z) | TKex (i : Z).
+Definition run_table (c : tcase) : list Z :=
+  match c with
+  | TReq srv outb ci mi => run_requested (srv, outb, ci, mi)
+  | TKex i => run_kex_hl i
   end.
